@@ -43,11 +43,18 @@ def generate(seed_: int, run: int, reactions: list[str]) -> dict:
         name = f"model{slot}.pkl"
         ops.append({"op": "dump", "b": slot, "file": name, "fingerprint": fp})
         files.append(("model", name, fp))
+    # systematic part: run r always dumps entry r of the doubled pool (folded, then unfolded forms),
+    # so that a quick run covers every class whatever the random picks are
+    ops.append({"op": "dump_expr", "e": run, "file": "sweep.pkl"})
+    files.append(("expr", "sweep.pkl", False))
     for k in range(rng.choice([1, 2, 3]) if n_models else rng.choice([2, 3, 4])):
         name = f"expr{k}.pkl"
         if rng.random() < 0.3:
             # seeded random composite of library expressions (arithmetic, nesting, PoolSum), folded or unfolded
-            choice = f"rand:{rng.randrange(10**6)}" + ("u" if rng.random() < 0.3 else "")
+            # (folded only: unfolding an arbitrary nesting of library expressions can take minutes — two
+            # soak runs hit the 600 s child timeout that way; unfolded forms come from the fixed pool)
+            choice = f"rand:{rng.randrange(10**6)}"
+            rng.random()
         else:
             choice = rng.randrange(10**6)
         ops.append({"op": "dump_expr", "e": choice, "file": name})
@@ -261,6 +268,7 @@ def stats_of(workload: dict, out: dict) -> dict:
 def minimise(zy: ZygoteSet, seed_: int, run: int, violation: dict, options: dict):
     sig = violation["sig"]
     workload = copy.deepcopy(violation["workload"])
+    original = copy.deepcopy(violation["workload"])
 
     def fails(w) -> bool:
         try:
@@ -297,6 +305,10 @@ def minimise(zy: ZygoteSet, seed_: int, run: int, violation: dict, options: dict
         shrunk = True
     out = execute(zy, run, workload, tag="-confirm")
     match = [v for v in out["violations"] if v["sig"] == sig]
+    if not match and shrunk:
+        workload, shrunk = original, False  # fragile violation: fall back to the run as generated
+        out = execute(zy, run, workload, tag="-confirm")
+        match = [v for v in out["violations"] if v["sig"] == sig]
     if not match:
         return None
     payload = {"workload": workload, "violation": match[0], "shrunk": shrunk,
